@@ -32,6 +32,8 @@ pub struct TlsCase {
     pub cycle: Vec<usize>,
     pub write_limit: usize,
     pub close_notify: bool,
+    /// replaces the plaintext the client sends inside the TLS session (malformed-input workloads)
+    pub app_override: Option<Vec<u8>>,
 }
 
 pub fn run_tls(m: &TlsMaterial, c: &TlsCase) -> Result<TlsObs, String> {
@@ -42,6 +44,9 @@ pub fn run_tls(m: &TlsMaterial, c: &TlsCase) -> Result<TlsObs, String> {
     let (mut app, _) = wire::frame(&wire::handshake41(caps, 1 << 24, 0x21, &c.user, b"\0"), 2);
     for cmd in &c.cmds {
         app.extend(wire::frame(&cmd.payload, cmd.seq).0);
+    }
+    if let Some(o) = &c.app_override {
+        app = o.clone();
     }
     let mut w = TlsWorld::new(conn, sslreq, app);
     w.first_cut = c.first_cut;
@@ -286,7 +291,7 @@ pub fn run(ctx: &Ctx) -> Report {
         if quit {
             cmds.push(Cmd::quit());
         }
-        let c = TlsCase { tls13, with_cert, server_mode: mode, user: CANARY_USER.to_vec(), cmds, scripts, first_cut: cut, cycle: vec![], write_limit: usize::MAX, close_notify: true };
+        let c = TlsCase { tls13, with_cert, server_mode: mode, user: CANARY_USER.to_vec(), cmds, scripts, first_cut: cut, cycle: vec![], write_limit: usize::MAX, close_notify: true, app_override: None };
         let o = match run_tls(mref, &c) {
             Ok(o) => o,
             Err(e) => {
@@ -329,7 +334,7 @@ pub fn run(ctx: &Ctx) -> Report {
             cmds.push(Cmd::quit());
         }
         let first_cut = if rng.bool() { rng.range(1, 60) as usize } else { 0 };
-        let c = TlsCase { tls13, with_cert, server_mode: mode, user: CANARY_USER.to_vec(), cmds, scripts, first_cut, cycle, write_limit: wl, close_notify };
+        let c = TlsCase { tls13, with_cert, server_mode: mode, user: CANARY_USER.to_vec(), cmds, scripts, first_cut, cycle, write_limit: wl, close_notify, app_override: None };
         let o = match run_tls(mref, &c) {
             Ok(o) => o,
             Err(e) => {
@@ -352,7 +357,7 @@ pub fn run(ctx: &Ctx) -> Report {
     let r = par_cases(ctx, "C18", "refusals", n, |rng, i, rep| {
         let mode = if i % 2 == 0 { 3 } else { 1 };
         let (cmds, scripts) = tls_script(rng, 2);
-        let c = TlsCase { tls13: rng.bool(), with_cert: false, server_mode: mode, user: CANARY_USER.to_vec(), cmds, scripts, first_cut: rng.below(80) as usize, cycle: if rng.bool() { vec![] } else { vec![rng.range(1, 40) as usize] }, write_limit: usize::MAX, close_notify: true };
+        let c = TlsCase { tls13: rng.bool(), with_cert: false, server_mode: mode, user: CANARY_USER.to_vec(), cmds, scripts, first_cut: rng.below(80) as usize, cycle: if rng.bool() { vec![] } else { vec![rng.range(1, 40) as usize] }, write_limit: usize::MAX, close_notify: true, app_override: None };
         let o = match run_tls(mref, &c) {
             Ok(o) => o,
             Err(e) => {
